@@ -122,3 +122,8 @@ package base
 //@ func (StagePoint).String
 //@   trusted
 //@   pure
+
+// interface contract (A9): a node always has an address
+//@ func (Node).Address
+//@   pure
+//@   ensures r0 != nil
